@@ -217,6 +217,19 @@ var brokenUser = []struct{ name, src string }{
 	{"syntax-error-other-file", "package p\n\nfunc broken( {\n"},
 	{"undefined-identifier", "package p\n\nfunc u() { deriveEqualX(nosuch, 2) }\n"},
 	{"undefined-type", "package p\n\nfunc u(a NoSuch) { deriveEqualX(a, a) }\n"},
+	{"undefined-type-map-key", "package p\n\nfunc u(a map[NoSuch]string) { deriveKeysX(a) }\n"},
+	{"undefined-type-map-key-equal", "package p\n\nfunc u(a, b map[NoSuch][]string) { deriveEqualX(a, b) }\n"},
+	{"undefined-type-map-value", "package p\n\nfunc u(a, b map[string][]NoSuch) { deriveEqualX(a, b) }\n"},
+	{"undefined-type-elem", "package p\n\nfunc u(a []NoSuch) { deriveSortX(a) }\n"},
+	{"undefined-type-nested-map-key", "package p\n\nfunc u(a []map[NoSuch]int) { deriveHashX(a) }\n"},
+	{"undefined-type-pointer", "package p\n\nfunc u(a, b *NoSuch) { deriveCompareX(a, b) }\n"},
+	{"undefined-type-array", "package p\n\nfunc u(a [2]NoSuch) { deriveCloneX(a) }\n"},
+	{"undefined-type-chan-elem", "package p\n\nfunc u(a <-chan NoSuch) { deriveDupX(a) }\n"},
+	{"undefined-type-func-param", "package p\n\nfunc u(f func(NoSuch) bool, l []int) { deriveFilterX(f, l) }\n"},
+	{"undefined-type-func-result", "package p\n\nfunc u(f func(int) NoSuch, l []int) { deriveFmapX(f, l) }\n"},
+	{"undefined-type-struct-field", "package p\n\ntype T struct{ F NoSuch }\n\nfunc u(a, b T) { deriveEqualX(a, b) }\n"},
+	{"undefined-type-field-of-map-key", "package p\n\ntype K struct{ F NoSuch }\n\nfunc u(a map[K]int) { deriveKeysX(a) }\n"},
+	{"undefined-package-qualified-type", "package p\n\nfunc u(a map[nosuch.T]int) { deriveKeysX(a) }\n"},
 	{"missing-import", "package p\n\nimport \"subj/nosuchpkg\"\n\nfunc u() { deriveEqualX(nosuchpkg.V, nosuchpkg.V) }\n"},
 	{"type-error-elsewhere", "package p\n\nvar x int = \"s\"\n\nfunc u() { deriveEqualX(1, 2) }\n"},
 	{"wrong-package-clause", "package q\n\nfunc u() { deriveEqualX(1, 2) }\n"},
@@ -315,7 +328,16 @@ func judge(dir string, fc *faultCase) (map[string]string, string) {
 		return nil, ""
 	}
 	if fc.userBroken {
-		return nil, "" // exit 0 on broken user code: only termination and the absence of a crash are judged
+		// exit 0 on broken user code: the package cannot type-check whatever goderive does, but a file it
+		// wrote must at least parse (an unresolved type is outside every plugin's supported set)
+		df := filepath.Join(dir, "p", gorun.DerivedFile)
+		if _, err := os.Stat(df); err == nil {
+			if _, perr := gorun.GofmtClean(df); perr != nil {
+				sig["symptom"] = "exit0-unparsable"
+				return sig, fmt.Sprintf("goderive exited 0 on a package with %s and wrote a derived.gen.go that does not parse: %v", fc.desc, perr)
+			}
+		}
+		return nil, ""
 	}
 	// exit 0: the result has to be a package that parses and type-checks
 	df := filepath.Join(dir, "p", gorun.DerivedFile)
